@@ -180,13 +180,41 @@ fn subsets(n: usize, k: usize) -> Vec<Vec<usize>> {
 
 /// full-rank certificate of an m x n matrix: the best conditioned min(m,n)-square sub-matrix
 /// made of whole columns (m >= n) or whole rows (m < n)
+/// index subsets to try for a certificate: all of them when there are few, otherwise the
+/// leading one plus a deterministic pseudo-random sample
+fn candidate_subsets(m: usize, k: usize) -> Vec<Vec<usize>> {
+    let mut count = 1f64;
+    for i in 0..k {
+        count = count * (m - i) as f64 / (i + 1) as f64;
+    }
+    if count <= 300.0 {
+        return subsets(m, k);
+    }
+    let mut out = vec![(0..k).collect::<Vec<usize>>()];
+    let mut x: u64 = 0x9E37_79B9_7F4A_7C15 ^ ((m as u64) << 32) ^ k as u64;
+    for _ in 0..100 {
+        let mut idx: Vec<usize> = (0..m).collect();
+        for i in 0..k {
+            x ^= x << 13;
+            x ^= x >> 7;
+            x ^= x << 17;
+            let j = i + (x % (m - i) as u64) as usize;
+            idx.swap(i, j);
+        }
+        let mut sub: Vec<usize> = idx[..k].to_vec();
+        sub.sort_unstable();
+        out.push(sub);
+    }
+    out
+}
+
 fn cert_full(a: &IM) -> Option<Cert> {
     let m = a.len();
     let n = a[0].len();
     let mut best: Option<(Cert, f64)> = None;
     if m >= n {
         let cols: Vec<usize> = (0..n).collect();
-        for rows in subsets(m, n) {
+        for rows in candidate_subsets(m, n) {
             if let Some((c, s)) = cert_sub(a, &rows, &cols) {
                 if best.as_ref().map(|b| s < b.1).unwrap_or(true) {
                     best = Some((c, s));
@@ -195,7 +223,7 @@ fn cert_full(a: &IM) -> Option<Cert> {
         }
     } else {
         let rows: Vec<usize> = (0..m).collect();
-        for cols in subsets(n, m) {
+        for cols in candidate_subsets(n, m) {
             if let Some((c, s)) = cert_sub(a, &rows, &cols) {
                 if best.as_ref().map(|b| s < b.1).unwrap_or(true) {
                     best = Some((c, s));
@@ -535,11 +563,12 @@ fn ev_svd<T: Width>(r: &mut Run) {
         };
         let s2 = (1u64 << S) as f64;
         let inr = in_range(&[(m, maxabs(&uq), maxabs(&uq)), (n, maxabs(&vq), maxabs(&vq)),
-                             (n, am * s2, maxabs(&vq)), (1, maxabs(&uq), maxabs_v(&sq)),
-                             // the direct triple product is formed at scale 2^6 per factor
-                             (n, (maxabs(&uq) / 16.0 + 1.0) * (maxabs_v(&sq) / 16.0 + 1.0), maxabs(&vq) / 16.0 + 1.0)]);
+                             (n, am * s2, maxabs(&vq)), (1, maxabs(&uq), maxabs_v(&sq))]);
+        // the direct triple product (formed at scale 2^6 per factor) only where it fits 32 bits
+        let tri = in_range(&[(n, (maxabs(&uq) / 16.0 + 1.0) * (maxabs_v(&sq) / 16.0 + 1.0), maxabs(&vq) / 16.0 + 1.0)]);
         r.emit::<T>("SVD", json!({}), "ok", Some(&q), inr,
-                    json!({"U": uq, "V": vq, "s": sq, "sRk": srk, "sSg": ssg, "Sm": smq, "SmSg": smsg, "SmOk": smok}));
+                    json!({"U": uq, "V": vq, "s": sq, "sRk": srk, "sSg": ssg, "Sm": smq, "SmSg": smsg, "SmOk": smok,
+                           "tri": tri}));
     } else {
         r.emit::<T>("SVD", json!({}), st, None, true, json!({}));
     }
@@ -553,7 +582,8 @@ fn cap(n: usize) -> i64 {
         0..=5 => 16,
         6 => 8,
         7 => 5,
-        _ => 4,
+        8 => 4,
+        _ => 2,
     }
 }
 
@@ -903,6 +933,181 @@ fn gen_rankdef(rng: &mut StdRng, m: usize, n: usize, r: usize) -> Option<(IM, Ce
     None
 }
 
+// ---------------------------------------------------------------------------------------------
+// size ladder: large inputs whose certificate (an integer matrix C and integer d with A*C = d*I
+// on the certified sub-matrix) is known by construction -- cofactor expansion is hopeless there
+// ---------------------------------------------------------------------------------------------
+fn ident(n: usize) -> IM {
+    (0..n).map(|i| (0..n).map(|j| if i == j { 1 } else { 0 }).collect()).collect()
+}
+
+/// small unimodular block (product of a few elementary row operations) and its integer inverse
+fn unimodular_block(rng: &mut StdRng, s: usize) -> (IM, IM) {
+    loop {
+        let mut b = ident(s);
+        if s > 1 {
+            for _ in 0..rng.gen_range(1..=3) {
+                let i = rng.gen_range(0..s);
+                let mut j = rng.gen_range(0..s);
+                if j == i {
+                    j = (i + 1) % s;
+                }
+                let t = if rng.gen_bool(0.5) { 1 } else { -1 };
+                let rj = b[j].clone();
+                for (x, y) in b[i].iter_mut().zip(rj.iter()) {
+                    *x += t * y;
+                }
+            }
+        } else if rng.gen_bool(0.5) {
+            b[0][0] = -1;
+        }
+        let bi: Vec<Vec<i128>> = b.iter().map(|r| r.iter().map(|&v| v as i128).collect()).collect();
+        let (adj, d) = adj_det(&bi);
+        if d.abs() == 1 && maxabs(&b) <= 3.0 {
+            let inv: IM = adj.iter().map(|r| r.iter().map(|&v| (v * d) as i64).collect()).collect();
+            return (b, inv);
+        }
+    }
+}
+
+fn perm(rng: &mut StdRng, n: usize) -> Vec<usize> {
+    let mut p: Vec<usize> = (0..n).collect();
+    p.shuffle(rng);
+    p
+}
+
+fn block_sizes(rng: &mut StdRng, n: usize, maxb: usize) -> Vec<usize> {
+    let mut left = n;
+    let mut v = Vec::new();
+    while left > 0 {
+        let b = rng.gen_range(1..=left.min(maxb));
+        v.push(b);
+        left -= b;
+    }
+    v
+}
+
+/// A = rows p1 / columns p2 of a block-diagonal unimodular matrix (pivoting and sign activity in
+/// every factorisation), C = the correspondingly permuted block inverse, d = 1
+fn ladder_unimodular(rng: &mut StdRng, n: usize) -> (IM, Cert) {
+    let mut b = vec![vec![0i64; n]; n];
+    let mut bi = vec![vec![0i64; n]; n];
+    let mut o = 0;
+    for s in block_sizes(rng, n, 3) {
+        let (blk, inv) = unimodular_block(rng, s);
+        for i in 0..s {
+            for j in 0..s {
+                b[o + i][o + j] = blk[i][j];
+                bi[o + i][o + j] = inv[i][j];
+            }
+        }
+        o += s;
+    }
+    let p1 = perm(rng, n);
+    let p2 = perm(rng, n);
+    // A[i][j] = B[p1[i]][p2[j]]  =>  A^-1[j][i] = B^-1[p2[j]][p1[i]]
+    let a: IM = (0..n).map(|i| (0..n).map(|j| b[p1[i]][p2[j]]).collect()).collect();
+    let c: IM = (0..n).map(|j| (0..n).map(|i| bi[p2[j]][p1[i]]).collect()).collect();
+    (a, Cert { rows: (0..n).collect(), cols: (0..n).collect(), adj: c, det: 1 })
+}
+
+/// Sylvester-Hadamard block of the largest power of two <= n, the rest a diagonal of powers of
+/// two; rows and columns permuted, rows sign-flipped.  With h the block order, A*C = h*I for
+/// C = A^T on the block and h / a_ii on the diagonal part.
+fn ladder_hadamard(rng: &mut StdRng, n: usize) -> (IM, Cert) {
+    let h = [1usize, 2, 4, 8, 16, 32, 64].iter().cloned().filter(|&k| k <= n).max().unwrap();
+    let hm = hadamard(h);
+    let mut b = vec![vec![0i64; n]; n];
+    let mut c = vec![vec![0i64; n]; n];
+    for i in 0..h {
+        for j in 0..h {
+            b[i][j] = hm[i][j];
+            c[j][i] = hm[i][j];
+        }
+    }
+    for i in h..n {
+        let v = 1i64 << rng.gen_range(0..=3);
+        b[i][i] = v;
+        c[i][i] = h as i64 / v;
+    }
+    let p1 = perm(rng, n);
+    let p2 = perm(rng, n);
+    let sgn: Vec<i64> = (0..n).map(|_| if rng.gen_bool(0.5) { 1 } else { -1 }).collect();
+    let a: IM = (0..n).map(|i| (0..n).map(|j| sgn[i] * b[p1[i]][p2[j]]).collect()).collect();
+    let ci: IM = (0..n).map(|j| (0..n).map(|i| sgn[i] * c[p2[j]][p1[i]]).collect()).collect();
+    (a, Cert { rows: (0..n).collect(), cols: (0..n).collect(), adj: ci, det: h as i64 })
+}
+
+/// symmetric, strictly diagonally dominant (hence positive definite) block-diagonal matrix under a
+/// symmetric permutation; every block comes from a menu whose determinants divide 240, so that
+/// C = blockdiag(adj_k * 240 / det_k) satisfies A*C = 240*I.  With `neg` one diagonal entry is
+/// replaced by a clearly negative number (Cholesky must then report an error).
+fn ladder_spd(rng: &mut StdRng, n: usize, neg: bool) -> (IM, Cert) {
+    let menu: Vec<IM> = vec![
+        vec![vec![3]],
+        vec![vec![5]],
+        vec![vec![2, 1], vec![1, 2]],
+        vec![vec![2, -1], vec![-1, 2]],
+        vec![vec![4, 1], vec![1, 4]],
+        vec![vec![3, 1, 1], vec![1, 3, 1], vec![1, 1, 3]],
+        vec![vec![3, -1, 1], vec![-1, 3, 1], vec![1, 1, 3]],
+    ];
+    let mut b = vec![vec![0i64; n]; n];
+    let mut c = vec![vec![0i64; n]; n];
+    let mut o = 0;
+    while o < n {
+        let blk = loop {
+            let k = &menu[rng.gen_range(0..menu.len())];
+            if k.len() <= n - o {
+                break k.clone();
+            }
+        };
+        let s = blk.len();
+        let bi: Vec<Vec<i128>> = blk.iter().map(|r| r.iter().map(|&v| v as i128).collect()).collect();
+        let (adj, d) = adj_det(&bi);
+        assert!(d > 0 && 240 % d == 0);
+        for i in 0..s {
+            for j in 0..s {
+                b[o + i][o + j] = blk[i][j];
+                c[o + i][o + j] = (adj[i][j] * (240 / d)) as i64;
+            }
+        }
+        o += s;
+    }
+    let p = perm(rng, n);
+    let mut a: IM = (0..n).map(|i| (0..n).map(|j| b[p[i]][p[j]]).collect()).collect();
+    let ci: IM = (0..n).map(|i| (0..n).map(|j| c[p[i]][p[j]]).collect()).collect();
+    if neg {
+        let k = rng.gen_range(n / 2..n);
+        a[k][k] = -rng.gen_range(1..=3);
+    }
+    (a, Cert { rows: (0..n).collect(), cols: (0..n).collect(), adj: ci, det: 240 })
+}
+
+/// m x n, full column rank: the rows of an n x n ladder_unimodular matrix interleaved with m - n
+/// further rows (random {-1,0,1}, zero, duplicates); the certificate points at the original rows
+fn ladder_tall(rng: &mut StdRng, m: usize, n: usize) -> (IM, Cert) {
+    let (sq, c) = ladder_unimodular(rng, n);
+    let mut rows: Vec<(Option<usize>, Vec<i64>)> = sq.iter().cloned().enumerate().map(|(i, r)| (Some(i), r)).collect();
+    for k in 0..m - n {
+        let r: Vec<i64> = match k % 3 {
+            0 => (0..n).map(|_| rnd(rng, 1)).collect(),
+            1 => vec![0; n],
+            _ => sq[rng.gen_range(0..n)].clone(),
+        };
+        rows.push((None, r));
+    }
+    rows.shuffle(rng);
+    let mut where_is = vec![0usize; n];
+    for (pos, (orig, _)) in rows.iter().enumerate() {
+        if let Some(i) = orig {
+            where_is[*i] = pos;
+        }
+    }
+    let a: IM = rows.into_iter().map(|(_, r)| r).collect();
+    (a, Cert { rows: where_is, cols: (0..n).collect(), adj: c.adj, det: c.det })
+}
+
 fn gen_b(rng: &mut StdRng, m: usize) -> IM {
     let p = rng.gen_range(1..=4);
     dense(rng, m, p, 8)
@@ -921,10 +1126,25 @@ fn is_sym(a: &IM) -> bool {
     a[0].len() == n && (0..n).all(|i| (0..n).all(|j| a[i][j] == a[j][i]))
 }
 
+thread_local! {
+    /// which calls are made for the next inputs (bit set; all by default).  The quick tier makes
+    /// only a few calls on the order-64 inputs, whose validation costs TLC seconds per event.
+    static CALLS: std::cell::Cell<u32> = std::cell::Cell::new(0xff);
+}
+const C_LU: u32 = 1;
+const C_SOLVE_LU: u32 = 2;
+const C_CHOL: u32 = 4;
+const C_SOLVE_CHOL: u32 = 8;
+const C_QR: u32 = 16;
+const C_SOLVE_QR: u32 = 32;
+const C_SVD: u32 = 64;
+const C_SOLVE_SVD: u32 = 128;
+
 /// all events of one input matrix at one width
 fn events_for<T: Width>(r: &mut Run, rng: &mut StdRng, rankdef: bool, chol_only: bool) {
     let m = r.a.len();
     let n = r.a[0].len();
+    let on = |bit: u32| CALLS.with(|c| c.get() & bit != 0);
     if chol_only {
         ev_chol::<T>(r);
         return;
@@ -939,20 +1159,35 @@ fn events_for<T: Width>(r: &mut Run, rng: &mut StdRng, rankdef: bool, chol_only:
     }
     let b = gen_b(rng, m);
     if m == n {
-        ev_lu::<T>(r);
-        ev_solve::<T>(r, "lu", &b);
+        if on(C_LU) {
+            ev_lu::<T>(r);
+        }
+        if on(C_SOLVE_LU) {
+            ev_solve::<T>(r, "lu", &b);
+        }
         if is_sym(&r.a) {
-            ev_chol::<T>(r);
-            ev_solve::<T>(r, "chol", &b);
+            if on(C_CHOL) {
+                ev_chol::<T>(r);
+            }
+            if on(C_SOLVE_CHOL) {
+                ev_solve::<T>(r, "chol", &b);
+            }
         }
     }
     if m >= n {
-        ev_qr::<T>(r);
-        ev_solve::<T>(r, "qr", &b);
+        if on(C_QR) {
+            ev_qr::<T>(r);
+        }
+        if on(C_SOLVE_QR) {
+            ev_solve::<T>(r, "qr", &b);
+        }
     }
-    ev_svd::<T>(r);
-    if m >= n {
-        ev_solve::<T>(r, if rng.gen_bool(0.5) { "svd" } else { "svd_ref" }, &b);
+    if on(C_SVD) {
+        ev_svd::<T>(r);
+    }
+    let which = if rng.gen_bool(0.5) { "svd" } else { "svd_ref" };
+    if m >= n && on(C_SOLVE_SVD) {
+        ev_solve::<T>(r, which, &b);
     }
 }
 
@@ -980,7 +1215,11 @@ fn gen_random(path: &str) {
     let mut run = 0i64;
     for i in 0..n_square {
         let fam = SQUARE_FAMILIES[i % SQUARE_FAMILIES.len()];
-        let n = 1 + (rng.gen_range(0..64usize) % 8).min(rng.gen_range(0..9usize).min(7));
+        let n = if rng.gen_range(0..6) == 0 {
+            rng.gen_range(9..=12usize)
+        } else {
+            1 + (rng.gen_range(0..64usize) % 8).min(rng.gen_range(0..9usize).min(7))
+        };
         let n = if fam == "sym_zero_pivot" || fam == "sym_indef" || fam == "sym_semidef" { n.min(5) } else { n };
         let a = gen_square(&mut rng, n, fam);
         let cert = cert_json(&cert_full(&a), &None);
@@ -989,8 +1228,13 @@ fn gen_random(path: &str) {
     }
     for i in 0..n_tall {
         let fam = TALL_FAMILIES[i % TALL_FAMILIES.len()];
-        let n = rng.gen_range(1..=6usize);
-        let m = rng.gen_range(n + 1..=8usize);
+        let (n, m) = if rng.gen_range(0..6) == 0 && fam != "tall_orth" {
+            let n = rng.gen_range(5..=9usize);
+            (n, rng.gen_range(n + 1..=13usize))
+        } else {
+            let n = rng.gen_range(1..=6usize);
+            (n, rng.gen_range(n + 1..=8usize))
+        };
         let a = gen_tall(&mut rng, m, n, fam);
         let cert = cert_json(&cert_full(&a), &None);
         run += 1;
@@ -1005,6 +1249,60 @@ fn gen_random(path: &str) {
         run += 1;
         let name = fam.replace("tall", "wide");
         one_input(&mut out, &mut stats, &mut rng, run, &name, a, cert, false, false, None, None);
+    }
+    // size ladder: orders 20, 33, 64 with certificates that are known by construction
+    let reps = if big { 8 } else { 1 };
+    for rep in 0..reps {
+        for &n in &[20usize, 33, 64] {
+            let mut inputs: Vec<(String, IM, Cert)> = Vec::new();
+            let (a, c) = ladder_unimodular(&mut rng, n);
+            inputs.push((format!("lad_unimod@{}", n), a, c));
+            let (a, c) = ladder_hadamard(&mut rng, n);
+            inputs.push((format!("lad_hadamard@{}", n), a, c));
+            let (a, c) = ladder_spd(&mut rng, n, false);
+            inputs.push((format!("lad_spd@{}", n), a, c));
+            let (a, c) = ladder_spd(&mut rng, n, true);
+            inputs.push((format!("lad_spd_negdiag@{}", n), a, c));
+            let (mt, nt) = match n { 20 => (20, 12), 33 => (33, 20), _ => (64, 33) };
+            let (a, c) = ladder_tall(&mut rng, mt, nt);
+            inputs.push((format!("lad_tall@{}x{}", mt, nt), a.clone(), c));
+            let (a, c) = ladder_tall(&mut rng, mt, nt);
+            let at = transpose(&a);
+            let ct = Cert { rows: c.cols.clone(), cols: c.rows.clone(), adj: transpose(&c.adj), det: c.det };
+            inputs.push((format!("lad_wide@{}x{}", nt, mt), at, ct));
+            for (k, (name, a, c)) in inputs.into_iter().enumerate() {
+                // quick tier: everything at 20; at 33 and 64 a selection of calls per family (the
+                // thorough tier makes every call on every family at every size)
+                let calls = if big || n == 20 {
+                    0xff
+                } else if n == 33 {
+                    match k {
+                        0 => 0xff,                                  // unimodular: everything
+                        1 => C_QR | C_SVD,                          // Hadamard
+                        2 => C_CHOL | C_SOLVE_CHOL,                 // SPD
+                        3 => 0xff,                                  // negative diagonal: cholesky only
+                        4 => 0xff,                                  // tall 33 x 20
+                        _ => 0,
+                    }
+                } else {
+                    match k {
+                        0 => C_LU | C_SOLVE_LU,
+                        2 => C_CHOL,
+                        3 => 0xff,
+                        _ => 0,
+                    }
+                };
+                if calls == 0 {
+                    continue;
+                }
+                CALLS.with(|c| c.set(calls));
+                run += 1;
+                let chol_only = name.starts_with("lad_spd_negdiag");
+                let cert = cert_json(&Some(c), &None);
+                one_input(&mut out, &mut stats, &mut rng, run, &name, a, cert, false, chol_only, Some((k + rep) % 2 == 1), Some(0));
+                CALLS.with(|c| c.set(0xff));
+            }
+        }
     }
     let mut made = 0;
     while made < n_rd {
